@@ -1,7 +1,7 @@
 """C04 — key material is derived exactly as RFC 7296 prescribes."""
 import hashlib
 
-from vf import histories, shadow, sim as S
+from vf import histories, shadow, sim as S, walk
 from vf.checks import c01
 from vf.ref import groups, ikecrypto
 
@@ -301,17 +301,77 @@ def invalid_ke_retries(ck, base):
             ck.nontrivial(('ke-retry', x, y, rep))
 
 
+def child_on_the_rekeyed_ike_sa(ck, w, seed):
+    """The daemon A has rekeyed its IKE_SA (rekey response processed, its DELETE of the old IKE_SA still in flight) when the peer's CREATE_CHILD_SA request for
+    the OLD IKE_SA arrives (a peer that keeps using the old IKE_SA until it is deleted, or a reordering network). Whatever A installs for that exchange is
+    keyed as RFC 7296 2.17 says: with SK_d and the PRF of the IKE_SA that carried the exchange."""
+    rng = ck.rng('old-ike-sa', w)
+    grp = rng.choice(['19', '14', '20'])
+    child = {'encr': [rng.choice(histories.ENCR)], 'integ': [rng.choice(histories.INTEG)], 'dh': [grp] if w % 2 else []}
+    ike = {'encr': ['aes256', 'aes128'][w % 2:][:1], 'integ': [['sha256'], ['sha512'], ['sha1']][w % 3], 'prf': [['sha256'], ['sha1'], ['sha512']][w % 3], 'dh': ['19']}
+    kw = dict(child_a=child, child_b=child, ike_a=ike, ike_b=ike, mode='tunnel' if w % 4 == 0 else 'transport')
+    sc = walk.Scenario(seed + w, [], kw, handshake=False)
+    sim = sc.sim
+    sim.case.update({'family': 'child-on-the-rekeyed-ike-sa', 'w': w})
+    km = shadow.KeyMonitor(ck, prefix='old-ike-sa:')
+    km.attach(sim, S.W.dh_log)
+    if not S.handshake(sim, sc.a, sc.b):
+        return
+    sc.trigger('A', 'rekey_ike')
+    if not sim.net:
+        return
+    sc.deliver(0)                     # B answers the rekey request
+    if not sim.net:
+        return
+    sc.deliver(0)                     # A processes the answer and sends the DELETE of the old IKE_SA
+    held = list(sim.net)
+    sim.net.clear()
+    a_old = [x for x in sc.a.ctl.ike_sas if x.state.name == 'DEL_AFTER_REKEY_IKE_SA_REQ_SENT']
+    b_old = [x for x in sc.b.ctl.ike_sas if x.state.name == 'REKEYED']
+    if not a_old or not b_old:
+        ck.count('old_ike_sa.state_not_reached')
+        return
+    # the peer keeps using the old IKE_SA: it starts a CHILD_SA exchange there (its own view of that IKE_SA is made usable again for this one request)
+    b_old[0].state = S.State.ESTABLISHED
+    succ = b_old[0].new_ike_sa
+    if succ in sc.b.ctl.ike_sas:
+        sc.b.ctl.ike_sas.remove(succ)         # so that B's look-up by peer address picks the old IKE_SA
+    n0 = len(sc.a.kernel.requests)
+    sc.trigger('B', 'acquire')
+    if succ not in sc.b.ctl.ike_sas:
+        sc.b.ctl.ike_sas.append(succ)
+    reqs = [d for d in sim.net if d.dst == str(sc.a.addrs[0])]
+    if not reqs or bytes(reqs[0].data[:8]) != bytes(a_old[0].spi_i):
+        ck.count('old_ike_sa.request_not_on_the_old_ike_sa')
+        sim.net.clear()
+        return
+    sim.drain()
+    ck.count('old_ike_sa.requests_answered')
+    installed = [r_ for r_ in sc.a.kernel.requests[n0:] if r_['msg'] and r_['msg']['name'] == 'NEWSA']
+    ck.count('old_ike_sa.installed' if installed else 'old_ike_sa.refused')
+    if b_old[0].state.name == 'ESTABLISHED':
+        b_old[0].state = S.State.REKEYED
+    sim.net.extend(held)
+    sim.drain()
+    sim.settle()
+    ck.nontrivial(('old-ike-sa', w, bool(installed)))
+
+
 def crossing(ck):
     # exchanges that cross each other (each side derives KEYMAT for its own request while answering the peer's, with PFS)
     for w in range(60 if not ck.thorough() else 1500):
         if ck.mine(w):
             c01.run_crossing(ck, w, ck.seed * 1000003 + 9901)
+    for w in range(36 if not ck.thorough() else 720):
+        if ck.mine(w):
+            child_on_the_rekeyed_ike_sa(ck, w, ck.seed * 1000003 + 9955)
 
 
 def verdict(ck):
     c = ck.counters
     t = ck.thorough()
     ck.floor('crossing-exchange walks', c['crossing.walks'], 40)
+    ck.floor('CREATE_CHILD_SA requests answered on an IKE_SA that had already rekeyed itself', c['old_ike_sa.requests_answered'], 25)
     ck.floor('prf+ lengths compared', c['prfplus.lengths_compared'], 3000)
     ck.floor('MODP primes compared with the RFC 3526 formula', c['constants.modp_compared'], 5)
     ck.floor('own MODP public values with a leading zero octet', c['dh.own_public_values_with_a_leading_zero_octet'], 1)
